@@ -40,11 +40,12 @@ theorem scoped_evaluator_violates :
       (.seq (.cons (.leaf .PopulationEvaluator) (.cons (.scope (.leaf .PopulationEvaluator)) .nil)))).map
       (fun s => (visible s.counters, s.calls)) = some (some 3, 6) := by decide
 
-/-- The shipped ILS template (as regenerated from the code) on a concrete execution: one outer pass,
-two inner passes, every evaluation of one individual: 4 calls reported, 7 made. -/
+/-- The shipped ILS template (as regenerated from the code, after the repair 364645e) on a concrete execution: one
+outer pass with one pass of the scoped local search, every evaluation of one individual: 2 evaluations reported, 3 made
+(the evaluation inside the scope is counted on the shadowing counter of the child state). -/
 theorem ils_counter_violates :
-    (runC ⟨fun t => t == 3 || t == 10 || t == 16, fun _ => false, fun _ => 1⟩ 200 real_ils_v0).map
-      (fun s => decide (visible s.counters = some s.calls)) = some false := by decide
+    (runC ⟨fun t => t == 3 || t == 8, fun _ => false, fun _ => 1⟩ 200 real_ils_v0).map
+      (fun s => (visible s.counters, s.calls, decide (visible s.counters = some s.calls))) = some (some 2, 3, false) := by decide
 
 /-! Non-vacuity -/
 example : counterExactTop real_ga_v0 = true := by decide
